@@ -576,3 +576,13 @@ func init() {
 		},
 	})
 }
+
+func init() {
+	replayDrivers = append([]replayDriver{{
+		match: func(n string) bool { return strings.Contains(n, "getUsernameIfKeymasterSigned#C06.km-cert") },
+		run: func(r *Report, o *Obligation, sr *SolveResult) ReplayResult {
+			out, conf := goReplay(r, "cmd/keymasterd", "keymasterd_rolecert_replay_test.go", "TestVerifReplayAutomationCertOutsideNetblock", map[string]string{})
+			return ReplayResult{Confirmed: conf, Summary: replaySummary(out), Output: truncate(out, 4000), Driver: "TestVerifReplayAutomationCertOutsideNetblock (chain of the model: a leaf issued by the role-requesting CA, whose key is a published keymaster key; presented from outside the leaf's netblocks)"}
+		},
+	}}, replayDrivers...)
+}
